@@ -2,6 +2,9 @@
 From Coq Require Import String Ascii List Bool Arith NArith ZArith.
 From KV Require Import Lib.Str Lib.ByteSeq Gen.CxxConn Model.Conn Spec.StreamParse
                        Proofs.ByteSeqProofs Proofs.ConnProofs Proofs.StreamParseProofs Proofs.ConnOversize.
+(* not used by the statements below: Model.Proto is extracted into build/kmodel together with Model.Conn, so its .vo has to be
+   rebuilt with this closure whenever Gen/CxxConn.v is regenerated *)
+From KV Require Model.Proto.
 Import ListNotations.
 Open Scope N_scope.
 Open Scope list_scope.
